@@ -55,6 +55,15 @@ CHECKS["C08"] = ("exploration",
     "Schema-driven generator for component and composite buildpack.toml (every optional-key subset reachable, licenses, stacks+mixins, targets+distros, sbom-formats), buildpack plan, layer content metadata, launch.toml, store and package.toml, rendered in four table styles; every valid document must parse as each applicable public type with exactly the document's values and spec defaults (free-form metadata with arbitrary keys preserved); for each document every single-point mutant - unknown key in every non-metadata table, each certainly-required key deleted, each scalar/array retyped, order added to a component, targets/stacks added to a composite - must be rejected, and BuildpackDescriptor must classify by presence of order.",
     "Trusted: the schema in tools/c08.py (field names, requiredness and defaults from the spec). Keys whose optionality the spec leaves open are never used for delete mutants.")
 
+CHECKS["C01"] = ("exploration",
+    "runtime monitoring: build histories (cached_layer / uncached_layer with scripted callbacks, LayerRef writes, simulated cache restores) executed against the real BuildContext; after every step the reported state, the callback log and a full snapshot of <layers> are judged by an independent state-machine model",
+    "All histories of length <=3 (quick) / <=4 (thorough) over a 15-symbol alphabet (generic/typed metadata x keep/delete/replace/error decisions, uncached, the five kinds of writes, restore, a second dotted-name layer) plus 500 / 5000 random histories of up to 30 / 60 steps over three layer names. After each request: state+cause must equal what the scripted callbacks decided, callbacks must have run exactly once when due and with the on-disk metadata and path, the layer dir and <layer>.toml must exist with exactly the requested build/launch/cache flags, Restored must keep files/env/exec.d/SBOMs/metadata byte-for-byte, Empty must leave no file, metadata or SBOM, other layers and the rest of <layers> must be byte-identical; every LayerRef write is checked for exact replace semantics.",
+    "Trusted: the model in tools/c01.py and the restore rules in tools/layersim.py (those named in the quantifier). One defect found here was repaired (fix: c482b5b).")
+CHECKS["C02"] = ("exploration",
+    "runtime monitoring: handle_layer histories with scripted Layer implementations (two metadata types, all strategy / migration decisions, failing callbacks, arbitrary results) against the real BuildContext; callback log, snapshot and returned LayerData judged by an independent model",
+    "All histories of length <=3 / <=4 over an 11-symbol alphabet plus 400 / 4000 random histories with restores. Checked per call: exactly the expected callback sequence (create only on an empty directory; strategy / update / migrate exactly once when due, never otherwise), callbacks see the on-disk metadata, callback errors surface as the buildpack error; afterwards types = types(), metadata / env for all four scopes incl. per-process / exec.d / SBOM files equal the returned result (or, for keep, the previous snapshot with only types refreshed), other files as the callback left them, other layers untouched; the returned LayerData (name, path, types, metadata, env probed for 6 scopes x 2 starting envs) must behave like an independent reading of the disk.",
+    "Trusted: the model in tools/c02.py, tools/envmodel.py. One defect found here was repaired (fix: 57bd66a).")
+
 PENDING = {}
 
 
